@@ -16,8 +16,16 @@ For every generated module (harness/c15_gen.py):
     statement deletion);
   * thorough tier: rope's own source files go through the translator, the SPEC-vs-CPython comparison and the
     oracle pass as well (real code; the MODEL is not compared there because imports and bases resolve).
+  * every module is observed a second time on a fresh module object with the questions asked in another order
+    (shuffled / module lookups first / deepest scopes first / lines first; the "star" stream: all four): the
+    answers must not depend on the order;
+  * get_inner_scope_for_offset is compared, for every offset, with the innermost scope node whose CPython source
+    span (decorators included, half-open at the end) contains it; when patchedast raises, the module is skipped
+    for offsets with a reference to the open C08 finding whose shape it contains.
 Streams: "main" (inside the theorems' domain by construction of the generator, measured inside Coq),
-"plus" (PyF+: one or two productions for known departures switched on), "real".
+"plus" (PyF+: one or two productions for known departures switched on), "star" (modules starting with
+`from helpers_lib import *`, a small library module of the scratch project: star-imported public names must resolve
+to the library's binding), "real".
 """
 import ast
 import atexit
@@ -25,10 +33,12 @@ import builtins as _py_builtins
 import copy
 import json
 import os
+import random
 import shutil
 import symtable
 import tempfile
 import warnings
+import zlib
 
 from harness import c15_gen
 from harness.common import g_list
@@ -45,6 +55,11 @@ _project = None
 _project_dir = None
 _resource = None
 
+# a small library module of the scratch project; only the "star" stream imports it (from helpers_lib import *)
+LIB_NAME = "helpers_lib"
+LIB_SOURCE = "a = 1\ndef f():\n    return a\nclass C:\n    x = 2\nlen = 3\n_hidden = 4\n"
+LIB_PUBLIC = {"a", "f", "C", "len"}
+
 
 def project():
     """one scratch project per run; the observed modules are string modules attached to the resource
@@ -60,6 +75,8 @@ def project():
         os.makedirs(os.path.join(_project_dir, "d1", "d2", "d3"))
         with open(os.path.join(_project_dir, "d1", "d2", "d3", "mod.py"), "w") as f:
             f.write("")
+        with open(os.path.join(_project_dir, LIB_NAME + ".py"), "w") as f:
+            f.write(LIB_SOURCE)
         _project = rp.Project(_project_dir, ropefolder=None)
         _resource = _project.get_resource("d1/d2/d3/mod.py")
     return _project
@@ -99,7 +116,125 @@ def kind_of_node(node):
 
 # ============================================================================ rope
 class RopeScope:
-    __slots__ = ("path", "key", "kind", "start", "end", "names", "lookups", "parent", "scope", "dup", "inherited")
+    __slots__ = ("path", "key", "kind", "start", "end", "names", "lookups", "parent", "scope", "dup", "inherited",
+                 "allnames")
+
+
+def _from_library(pyname):
+    """the PyName is a name imported from the library module of the scratch project"""
+    try:
+        m, _ = pyname.get_definition_location()
+        return m is not None and m.get_resource() is not None and m.get_resource().path == LIB_NAME + ".py"
+    except Exception:
+        return False
+
+
+def answers_of(rope_scopes, rope_lines, idents):
+    """the observations of one pass as a flat dictionary question -> answer (for comparing passes that ask the
+    same questions in different orders)"""
+    def ok(o):
+        return o.path if isinstance(o, RopeScope) else o
+    ans = {}
+    for r in rope_scopes:
+        ans[("extent", r.path)] = (r.kind, r.start, r.end)
+        ans[("names", r.path)] = tuple(r.allnames)
+        for x in idents:
+            ans[("lookup", r.path, x)] = ok(r.lookups[x])
+    for l, p in enumerate(rope_lines, 1):
+        ans[("line", l)] = p
+    return ans
+
+
+ORDER_MODES = ("shuffle", "lookups-first", "deepest-first", "lines-first")
+
+
+def observe_rope_in_order(src, idents, paths, mode, rng):
+    """Asks a FRESH module object the same questions as observe_rope, in another order, through the public
+    interface only (get_scopes / get_kind / get_start / get_end / get_names / lookup / get_inner_scope_for_line);
+    the answers are canonicalised after the last question. Returns the dictionary of answers_of."""
+    from rope.base import libutils
+    import rope.base.builtins
+    mod = libutils.get_string_module(project(), src, _resource)
+    g = mod.get_scope()
+    nlines = src.count("\n") + 1
+    per_scope = lambda p: [("extent", p), ("names", p)] + [("lookup", p, x) for x in idents]
+    lines = [("line", l) for l in range(1, nlines + 1)]
+    if mode == "lookups-first":
+        # the module scope is asked for names before anything made it list its sub-scopes
+        head = [("lookup", (), x) for x in idents] + [("names", ())]
+        rest = [q for p in paths for q in per_scope(p) if q not in set(head)] + lines
+        rng.shuffle(rest)
+        qs = head + rest
+    elif mode == "deepest-first":
+        qs = [q for p in sorted(paths, key=lambda p: (-len(p), p)) for q in reversed(per_scope(p))] + lines
+    elif mode == "lines-first":
+        qs = lines + [q for p in reversed(paths) for q in per_scope(p)]
+    else:
+        qs = [q for p in paths for q in per_scope(p)] + lines
+        rng.shuffle(qs)
+
+    def nav(path):
+        sc = g
+        for i in path:
+            sc = sc.get_scopes()[i]
+        return sc
+
+    raw = {}
+    for q in qs:
+        if q[0] == "line":
+            raw[q] = g.get_inner_scope_for_line(q[1])
+            continue
+        sc = nav(q[1])
+        if q[0] == "extent":
+            k = sc.get_kind()
+            raw[q] = ({"Module": "Module", "Function": "Function", "Class": "Class", None: "Comp"}.get(k, str(k)),
+                      sc.get_start(), sc.get_end())
+        elif q[0] == "names":
+            raw[q] = dict(sc.get_names())
+        else:
+            raw[q] = sc.lookup(q[2])
+    # canonicalise (what is asked from here on can no longer influence the answers above)
+    bi = rope.base.builtins.builtins.get_attributes()
+    builtin_ids = {id(v) for v in bi.values()}
+    scopes = {p: nav(p) for p in paths}
+    owner = {}
+    for p in paths:                         # preorder
+        sc = scopes[p]
+        kind = sc.get_kind()
+        if kind == "Module":
+            structural = sc.pyobject._get_structural_attributes()
+            own = [v for k, v in sc.get_names().items() if structural.get(k) is v]
+        elif kind == "Class":
+            own = list(sc.pyobject._get_structural_attributes().values())
+        elif kind is None:
+            pn = scopes[p[:-1]].get_names()
+            own = [v for k, v in sc.get_names().items() if pn.get(k) is not v]
+        else:
+            own = list(sc.get_names().values())
+        for v in own:
+            owner.setdefault(id(v), p)
+    by_scope = {id(sc): p for p, sc in scopes.items()}
+
+    def canon(pn):
+        if pn is None:
+            return None
+        if id(pn) in owner:
+            return owner[id(pn)]
+        if id(pn) in builtin_ids:
+            return "B"
+        return "LIB" if _from_library(pn) else "?"
+
+    ans = {}
+    for q, v in raw.items():
+        if q[0] == "extent":
+            ans[q] = v
+        elif q[0] == "names":
+            ans[q] = tuple(sorted(k for k, pn in v.items() if not (q[1] == () and bi.get(k) is pn)))
+        elif q[0] == "lookup":
+            ans[q] = canon(v)
+        else:
+            ans[q] = by_scope.get(id(v), "?")
+    return ans
 
 
 def observe_rope(src, idents):
@@ -129,9 +264,11 @@ def observe_rope(src, idents):
     # the table each scope owns (PyName objects by identity)
     for r in out:
         s = r.scope
+        r.allnames = sorted(k for k, v in s.get_names().items() if not (r.kind == "Module" and bi.get(k) is v))
         if r.kind == "Module":
-            names = s.get_names()
-            own = {k: v for k, v in names.items() if bi.get(k) is not v}
+            # the module's own bindings; names brought in by a star import are concluded attributes, not these
+            structural = s.pyobject._get_structural_attributes()
+            own = {k: v for k, v in s.get_names().items() if structural.get(k) is v}
         elif r.kind == "Class":
             own = dict(s.pyobject._get_structural_attributes())
             r.inherited = set(s.get_names()) - set(own)
@@ -155,6 +292,8 @@ def observe_rope(src, idents):
             return o
         if id(p) in builtin_ids:
             return "B"
+        if _from_library(p):
+            return "LIB"
         return "?"
 
     for r in out:
@@ -727,12 +866,18 @@ def compare(src, idents, rope_scopes, rope_lines, py_scopes, tree):
             return o
         return o.key
 
+    # `from helpers_lib import *` at module level: the public names of the library are module globals bound by
+    # that statement wherever the module does not bind them itself
+    star = any(isinstance(st, ast.ImportFrom) and st.module == LIB_NAME and st.names[0].name == "*" and not st.level
+               for st in tree.body)
     for p in py_scopes:
         r = rope_by_key.get(p.key)
         if r is None or r.dup:
             continue
         for x in idents:
             want = okey(p.resolve[x])
+            if star and want in (None, "B") and x in LIB_PUBLIC:
+                want = "LIB"
             got = okey(r.lookups[x])
             if want == got:
                 continue
@@ -956,7 +1101,101 @@ class Observed:
     pass
 
 
-def observe(src):
+def _jsonable(v):
+    return list(v) if isinstance(v, tuple) else v
+
+
+def c08_shapes(tree):
+    """shapes on which rope's patchedast (property C08) is known not to annotate every node: open findings of C08,
+    referred to by id"""
+    ids = set()
+    for n in ast.walk(tree):
+        if isinstance(n, ast.arguments):
+            if n.posonlyargs or n.kwonlyargs or any(a.annotation is not None for a in
+                                                  n.posonlyargs + n.args + n.kwonlyargs + [x for x in (n.vararg, n.kwarg) if x]):
+                ids.add("C08-signature-syntax")
+        elif isinstance(n, (ast.FunctionDef, ast.AsyncFunctionDef)) and n.returns is not None:
+            ids.add("C08-signature-syntax")
+        elif isinstance(n, ast.ClassDef) and n.keywords:
+            ids.add("C08-class-keywords-type-params")
+    return ids
+
+
+def check_offsets(o, tree):
+    """get_inner_scope_for_offset against CPython's positions: for every offset the scope rope returns must be the
+    innermost scope node (among those rope has) whose source span - def / class spans start at the first decorator -
+    contains the offset, half-open at the end. The query goes through patchedast (property C08): when that raises,
+    the module is skipped and the reason recorded (a known C08 shape by reference, or a failure of its own)."""
+    src = o.src
+    lines = src.split("\n")
+    starts = [0]
+    for l in lines[:-1]:
+        starts.append(starts[-1] + len(l) + 1)
+
+    def off(line, col):
+        text = lines[line - 1]
+        if not text.isascii():
+            col = len(text.encode("utf-8")[:col].decode("utf-8"))
+        return starts[line - 1] + col
+
+    rope_keys = {r.key for r in o.rope_scopes}
+    spans = []
+    shared = set()      # offsets of parentheses that belong both to a call and to its only, generator, argument
+    for n in ast.walk(tree):
+        if isinstance(n, ast.Call) and len(n.args) == 1 and not n.keywords and isinstance(n.args[0], ast.GeneratorExp):
+            ga = n.args[0]
+            a, b = off(ga.lineno, ga.col_offset), off(ga.end_lineno, ga.end_col_offset)
+            if src[a] == "(" and b == off(n.end_lineno, n.end_col_offset):
+                # `f(x for x in y)`: CPython's span of the generator expression includes the call's parentheses
+                shared.update((a, b - 1))
+    for n in ast.walk(tree):
+        if isinstance(n, SCOPE_NODES) and node_key(n) in rope_keys:
+            a = off(n.lineno, n.col_offset)
+            if getattr(n, "decorator_list", None):
+                d = n.decorator_list[0]
+                a = off(d.lineno, d.col_offset)
+                while a > 0 and src[a] != "@":
+                    a -= 1
+            spans.append((a, off(n.end_lineno, n.end_col_offset), node_key(n)))
+    g = o.rope_scopes[0].scope
+    by = {id(r.scope): r for r in o.rope_scopes}
+    o.offsets_checked = 0
+    o.offsets_skipped = None
+    n = len(src)
+    if n <= 2500:
+        offsets = range(n + 1)
+    else:
+        pts = {0, n}
+        for a, b, _k in spans:
+            pts.update((a - 1, a, a + 1, b - 1, b, b + 1))
+        pts.update(range(0, n, 7))
+        offsets = sorted(x for x in pts if 0 <= x <= n)
+    try:
+        answers = [(offset, by[id(g.get_inner_scope_for_offset(offset))].key) for offset in offsets]
+    except Exception as e:
+        shapes = sorted(c08_shapes(tree))
+        if shapes:
+            o.offsets_skipped = "patchedast raised %s on a module with the known shape(s) %s" % (type(e).__name__, ", ".join(shapes))
+            o.offsets_c08 = shapes
+        else:
+            o.offsets_skipped = "patchedast raised %s" % type(e).__name__
+            o.dis.append(dict(what="offset-raised", cause="unattributed", error="%s: %s" % (type(e).__name__, str(e)[:200])))
+        return
+    for offset, got in answers:
+        if offset in shared:
+            continue
+        want, width = ("Module", 0, 0), None
+        for a, b, k in spans:
+            if a <= offset < b and (width is None or b - a < width):
+                want, width = k, b - a
+        o.offsets_checked += 1
+        if got != want:
+            o.dis.append(dict(what="offset-scope", cause="unattributed", offset=offset, rope=list(got), python=list(want),
+                              text=src[max(0, offset - 15):offset] + "<|>" + src[offset:offset + 15]))
+            return
+
+
+def observe(src, all_orders=False):
     """Everything the check needs about one module. Returns None if the source is outside the translatable syntax."""
     tr = c15_gen.to_gallina(src)
     if tr is None:
@@ -970,6 +1209,21 @@ def observe(src):
     o.py_scopes, tree = observe_python(src, idents)
     o.dis = compare(src, idents, o.rope_scopes, o.rope_lines, o.py_scopes, tree)
     o.unknown_owner = any(v == "?" for r in o.rope_scopes for v in r.lookups.values())
+    # the same questions asked of fresh module objects in other orders must get the same answers
+    base = answers_of(o.rope_scopes, o.rope_lines, idents)
+    paths = [r.path for r in o.rope_scopes]
+    rng = random.Random(zlib.crc32(src.encode("utf-8")))
+    modes = list(ORDER_MODES) if all_orders else [rng.choice(ORDER_MODES)]
+    o.orders = modes
+    for mode in modes:
+        other = observe_rope_in_order(src, idents, paths, mode, rng)
+        diff = sorted((q for q in base if other.get(q) != base[q]), key=repr)
+        if diff:
+            q = diff[0]
+            o.dis.append(dict(what="order-dependence", cause="unattributed", order=mode, question=list(map(_jsonable, q)),
+                              answer_in_preorder=_jsonable(base[q]), answer_in_this_order=_jsonable(other.get(q)),
+                              differing_answers=len(diff)))
+    check_offsets(o, tree)
     return o
 
 
@@ -1034,7 +1288,7 @@ def replay(ctx, obj):
         return True
     try:
         try:
-            o = observe(obj["src"])
+            o = observe(obj["src"], all_orders=bool(obj.get("all_orders")))
         except Exception as e:
             import traceback
             return exception_focus(e, traceback.format_exc()) == obj.get("focus") or not obj.get("focus", "").startswith(("superclass", "exception"))
@@ -1070,6 +1324,64 @@ FIXED = [
      "def cont(): x = 1 + \\\n    2\ny = 1\n"),
     "class A:\n    x = 1\nclass B:\n    x = 2\n    z = 3\nclass C(A, B):\n    y = x\n    def m(self):\n        self.z = y\nclass D(C):\n    w = (x, z)\n",
 ]
+
+
+def account_offsets_and_orders(ctx, o, stream):
+    ctx.count(stream + ":offsets-compared", getattr(o, "offsets_checked", 0))
+    for m in getattr(o, "orders", ()):
+        ctx.count(stream + ":question-order:" + m)
+    ids = getattr(o, "offsets_c08", None)
+    if ids:
+        open_ids = {f.get("id") for f in ctx.findings}
+        for i in ids:
+            ctx.count(stream + ":offsets-skipped(patchedast raised; see finding %s)" % i)
+        if not any(i in open_ids for i in ids):
+            ctx.violation({"kind": "module", "src": o.src, "focus": "offset-raised",
+                           "note": "patchedast raised and none of the C08 findings referred to is open: %s" % ids},
+                          "C15: get_inner_scope_for_offset raised on a module with no open C08 finding to refer to")
+
+
+def check_star_modules(ctx, n):
+    """modules that start with `from helpers_lib import *` (a small library module of the scratch project): every
+    question order, the oracle with the library's public names as module globals. Imports resolve here, so the
+    MODEL is not compared (outside its domain)."""
+    known = {f.get("signature") for f in ctx.findings if f.get("property") == PROPERTY}
+    done = 0
+    while done < n:
+        body = c15_gen.gen_module(ctx.rng, (), size=ctx.rng.choice([6, 10]))
+        if body is None:
+            continue
+        src = "from %s import *\n" % LIB_NAME + body
+        done += 1
+        try:
+            o = observe(src, all_orders=True)
+        except Exception as e:
+            import traceback
+            tb = traceback.format_exc()
+            ctx.count("star:rope-raised")
+            ctx.violation({"kind": "module", "src": src, "focus": exception_focus(e, tb), "traceback": tb[-1500:]},
+                          "C15: exception while observing a module: %r" % (e,))
+            continue
+        if o is None:
+            ctx.count("star:untranslatable")
+            continue
+        ctx.case(("star", src), nontrivial=len(o.py_scopes) >= 3)
+        ctx.count("star:modules")
+        ctx.count("star:lookups-compared", len(o.idents) * len(o.rope_scopes))
+        ctx.count("star:lookups-resolved-to-the-library",
+                  sum(1 for r in o.rope_scopes for v in r.lookups.values() if v == "LIB"))
+        account_offsets_and_orders(ctx, o, "star")
+        for c in causes_of(o.dis):
+            ctx.count("star:disagreement:" + c)
+            first = [d for d in o.dis if d["cause"] == c][0]
+            rep = {"kind": "module", "src": src, "focus": c, "disagreement": first, "all_orders": True}
+            if c not in known and len(ctx.violations) < 3 and first["what"] not in ("order-dependence", "offset-scope", "offset-raised"):
+                small = shrink(src, c, first["what"])
+                if small != src and small.startswith("from %s import *" % LIB_NAME):
+                    rep["src"] = small
+            ctx.violation(rep, "C15: rope disagrees with CPython (%s): %s" % (c, json.dumps(first)[:300]))
+        if ctx.too_many(12):
+            break
 
 
 def check_modules(ctx, sources, stream):
@@ -1131,6 +1443,7 @@ def check_modules(ctx, sources, stream):
         ctx.count(stream + ":modules")
         ctx.count(stream + ":scopes", nscopes)
         ctx.count(stream + ":lookups-compared", len(o.idents) * len(o.rope_scopes))
+        account_offsets_and_orders(ctx, o, stream)
         if o.in_fragment:
             n_dom += 1
             ctx.count(stream + ":inside-theorem-domain")
@@ -1165,7 +1478,8 @@ def check_modules(ctx, sources, stream):
             # inside the domain the theorems promise agreement except for the per-query exclusions
             allowed = {"class-self-attribute", "class-inherited-attribute", "comprehension-in-class",
                        "comprehension-extent"}
-            bad = [d for d in o.dis if d["cause"] not in allowed and d["what"] not in ("line-scope", "scope-end")]
+            bad = [d for d in o.dis if d["cause"] not in allowed
+                   and d["what"] not in ("line-scope", "scope-end", "offset-scope", "offset-raised", "order-dependence")]
             if bad:
                 ctx.violation(dict(base, focus="domain:" + bad[0]["cause"], disagreement=bad[0],
                                    broken="in_fragment_C15 holds for this module but rope and CPython disagree: "
@@ -1270,6 +1584,8 @@ def run(ctx):
                     ctx.count("plus:feature:" + x)
         if not ctx.too_many(12):
             check_modules(ctx, plus, "plus")
+        if not ctx.too_many(12):
+            check_star_modules(ctx, ctx.scale(50, 600))
         if not ctx.quick() and not ctx.too_many(12):
             check_real_modules(ctx, 40)
         dom = ctx.dist.get("main:inside-theorem-domain", 0)
